@@ -57,11 +57,35 @@ func observeList(l ref.Lang, size, shift int) ([]string, error) {
 }
 
 type listCase struct {
-	Lang string `json:"lang"`
+	Lang       string `json:"lang"`
+	AfterTypos bool   `json:"after_typos,omitempty"`
 }
 
 var c08ListCheck = register("C08", "c08.list", func(c *listCase) error {
 	l := mustLang(c.Lang)
+	if c.AfterTypos {
+		// rejected sentences first: list words with a letter appended / the last rune dropped, in
+		// otherwise valid sentences (error paths must not disturb the lists)
+		golden := ref.Golden(l)
+		for k := 0; k < 24; k++ {
+			idx := ref.Indices(tableEntropiesSmall(k + int(l)))
+			words := ref.Words(l, idx)
+			w := golden[(k*89+2040)%2048]
+			r := []rune(w)
+			switch k % 3 {
+			case 0:
+				words[k%12] = w + "s"
+			case 1:
+				words[k%12] = w + string(r[len(r)-1])
+			default:
+				if len(r) > 1 {
+					words[k%12] = string(r[:len(r)-1])
+				}
+			}
+			implCheck(strings.Join(words, " "), implLang[l])
+			implValid(strings.Join(words, l.Sep()), implLang[l])
+		}
+	}
 	obs, err := observeList(l, 16, 0)
 	if err != nil {
 		return err
@@ -173,6 +197,10 @@ func TestC08_List(t *testing.T) {
 		}
 		cov.Sample("c08.list", c)
 		judge(t, "c08.list", c08ListCheck, c)
+		c2 := &listCase{Lang: l.Name(), AfterTypos: true}
+		cov.Eval(2048)
+		cov.Class("list-after-rejected-typos")
+		judge(t, "c08.list", c08ListCheck, c2)
 	}
 	cov.Exhaustive("10 languages x 2048 indices, word emitted by the API vs golden list")
 }
